@@ -5,6 +5,7 @@ pub mod c06;
 pub mod c07;
 pub mod c09;
 pub mod c25;
+pub mod c34;
 pub mod dsio;
 pub mod c26;
 pub mod c27;
@@ -19,4 +20,5 @@ pub fn register(v: &mut Vec<CheckDef>) {
     v.push(c25::def());
     v.push(c26::def());
     v.push(c27::def());
+    v.push(c34::def());
 }
